@@ -586,6 +586,30 @@ pub fn c15(tier: &str) -> i32 {
         }));
     }
     {
+        // DROP of the LAST column of a populated table: rows written under the old shape - with a value and with NULL in
+        // the dropped column - stay readable, updatable and deletable under the new one, next to rows written after it
+        let prefix = vec![
+            Op::Auto(Stmt::CreateTable(TableDef::simple("t", &[("k", ColTy::Int), ("v", ColTy::Int), ("w", ColTy::Text)]))),
+            Op::Auto(Stmt::Insert { table: "t".into(), rows: vec![vec![i(1), i(10), Val::Text("a".into())]] }),
+            Op::Auto(Stmt::Insert { table: "t".into(), rows: vec![vec![i(2), i(20), Val::Null]] }),
+            Op::Auto(Stmt::Insert { table: "t".into(), rows: vec![vec![i(3), Val::Null, Val::Null]] }),
+        ];
+        let alpha = vec![
+            Op::Auto(Stmt::DropColumn { table: "t".into(), col: "w".into() }),
+            Op::Auto(Stmt::DropColumn { table: "t".into(), col: "v".into() }),
+            Op::Auto(sel("t")),
+            Op::Auto(ins("t", &[(4, 40)])),
+            Op::Auto(Stmt::Insert { table: "t".into(), rows: vec![vec![i(5), i(50), Val::Null]] }),
+            Op::Auto(Stmt::Delete { table: "t".into(), pred: Some(("k".into(), i(2))) }),
+            Op::Auto(Stmt::Update { table: "t".into(), set: vec![("v".into(), i(77))], pred: Some(("k".into(), i(3))) }),
+            Op::Vacuum,
+            Op::Reopen,
+        ];
+        searches.push(mk_search("C15", "DROP of the last column of a populated table (rows with a value and with NULL in it), then reads, inserts of both shapes, UPDATE, DELETE, VACUUM, reopen", Cfg::default(), prefix, alpha, if quick { 4 } else { 6 }, if quick { 100_000 } else { 2_000_000 }, |p| {
+            p.reopen_end = true;
+        }));
+    }
+    {
         // the ALTER shapes that are listed findings, plus DROP inside a transaction: kept in a separate
         // search so that the evidence shows how much of the space they mask
         let prefix = vec![Op::Auto(Stmt::CreateTable(TableDef::simple("t", &[("k", ColTy::Int), ("v", ColTy::Int), ("w", ColTy::Text)]))), Op::Auto(Stmt::Insert { table: "t".into(), rows: vec![vec![i(1), i(10), Val::Text("a".into())]] })];
